@@ -44,6 +44,31 @@ Theorem C19_export_box_origin : forall tr b x y,
 Proof. exact export_box_origin. Qed.
 Print Assumptions C19_export_box_origin.
 
+(* Refinement to draw lists (render.rs, transforms only).  render_node's reconstruction of the ancestors' transform
+   (parent_ts) is their product whenever abs_transform is (C12_abs_transform_product) ... *)
+Theorem C19_parent_ts_is_ancestors : forall n anc,
+  match n with
+  | EGroup _ t a _ _ => ts_invert t <> None /\ ts_eq a (ts_concat anc t)
+  | ELeaf _ a _ => ts_eq a anc
+  end -> ts_eq (parent_ts n) anc.
+Proof. exact parent_ts_is_ancestors. Qed.
+Print Assumptions C19_parent_ts_is_ancestors.
+
+(* ... and then the export draws exactly the draw list of the node in the full rendering - the same leaves in the same order -
+   with every transform prefixed by  export transform * translate(-layer box origin): "export = the node's part of the full
+   rendering seen through its layer box" is a theorem of the model up to the rasteriser (layers / opacity / clip / mask /
+   filters act on the same list: C14-C16). *)
+Theorem C19_export_draws_refines : forall tr b parent anc n,
+  ts_eq parent anc ->
+  draws_eq (export_draws tr b parent n)
+           (prefix_draws (ts_concat tr (from_translate (- bx0 b) (- by0 b))) (full_draws anc n)).
+Proof. exact export_draws_refines. Qed.
+Print Assumptions C19_export_draws_refines.
+
+Theorem C19_draws_prefix : forall n x c, draws_eq (draws (ts_concat x c) n) (prefix_draws x (draws c n)).
+Proof. exact draws_prefix. Qed.
+Print Assumptions C19_draws_prefix.
+
 (* lookup by id: the first node in pre-order below the root that carries the id; Some exactly when a renderable node
    carries the (non-empty) id *)
 Theorem C19_node_by_id_first : forall id n, nbi id n = find (fun c => String.eqb (eid c) id) (descendants n).
@@ -87,6 +112,11 @@ Example C19_ex_none : render_node_ts (ELeaf "l" ts_identity (mkbox 0 5 10 5)) ts
 Proof. vm_compute. reflexivity. Qed.
 Example C19_ex_stroked_line : render_node_ts (ELeaf "l" ts_identity (mkbox 0 2 10 8)) ts_identity <> None.
 Proof. vm_compute. discriminate. Qed.
+Example C19_ex_draws :
+  export_draws (from_scale 2 2) (mkbox 50 60 90 100) (from_translate 50 60)
+               (DGroup (from_translate 1 2) [DLeaf 7; DGroup (from_scale 3 3) [DLeaf 8]]) =
+  [(from_row 2 0 0 2 2 4, 7%N); (from_row 6 0 0 6 2 4, 8%N)].
+Proof. vm_compute. reflexivity. Qed.
 Example C19_ex_by_id :
   let t := EGroup "" ts_identity ts_identity (mkbox 0 0 1 1)
              [EGroup "a" ts_identity ts_identity (mkbox 0 0 1 1) [ELeaf "b" ts_identity (mkbox 0 0 1 1)]; ELeaf "b" ts_identity (mkbox 0 0 2 2)] in
